@@ -386,7 +386,33 @@ def static_editor_keys(repo):
 
 
 STATIC = [static_escaping, static_fixup_keys, static_disp_shapes, static_editor_keys]
-PROOFS = []
+
+# `any(vert.multi_blend for vert in ...)` decides whether multiblend data is written at all: Vec4 truthiness must mean
+# "some component is non-zero", for every value of the four components.
+from pyvc.symexec import Obj                     # noqa: E402
+from pyvc.vc import Contract, Registry, native    # noqa: E402
+REG = Registry()
+VEC4 = REG.add(Contract('vmf:Vec4.__bool__', PROP, name='multiblend.vec4_truth', modular=False))
+
+
+@VEC4.setup
+def _vec4(h):
+    v = Obj('Vec4', {k: h.real('c_' + k) for k in 'xyzw'}, module='vmf')
+    return {'args': [v], 'ghost': dict(V=v)}
+
+
+@native
+def some_component_nonzero(I, v):
+    import z3 as _z3
+    return _z3.Or(*[v.fields[k] != 0 for k in 'xyzw'])
+
+
+@VEC4.ensures
+def true_exactly_when_some_component_is_nonzero(result, V):
+    return result == some_component_nonzero(V)
+
+
+PROOFS = [VEC4]
 
 
 # ------------------------------------------------------------------------------------------------ bounded
@@ -546,3 +572,7 @@ HARMLESS = [
     dict(name='material_escaped_via_local', file='vmf.py', old="""        buffer.write(f'{ind}side\\n')\n        buffer.write(f'{ind}{{\\n')""",
          new="""        buffer.write(f'{ind}side\\n')\n        buffer.write(ind + '{\\n')"""),
 ]
+
+
+for _c in PROOFS:
+    _c.replay_fn = _witness
